@@ -3,7 +3,7 @@ import re
 from props.common_prog import judge_prog
 
 THEOREM_MODULES = ["Hcl.Theorems.C07", "Hcl.Tie.Ops"]
-THEOREMS = {"Hcl.Tie.Ops": ["Tie.Ops.binopKind", "Tie.Ops.applyRawArms", "Tie.Ops.binopApplyText", "Tie.Ops.unopApplyText", "Tie.Ops.maskText"], "Hcl.Theorems.C07": ["C07_accepted", "Program_new_sound", "assignmentsToActions_sound", "C07_cycle", "C07_soundness",
+THEOREMS = {"Hcl.Tie.Ops": ["Tie.Ops.binopKind", "Tie.Ops.applyRawArms", "Tie.Ops.binopApplyText", "Tie.Ops.unopApplyText", "Tie.Ops.maskText"], "Hcl.Theorems.C07": ["Program_new_sound'", "C07_accepted", "Program_new_sound", "assignmentsToActions_sound", "C07_cycle", "C07_soundness",
                                  "C07_values_fit", "C07_expression", "execAction_sound", "processBanks_sound", "ev_correct",
                                  "GBuild.sort_spec", "check_err", "step3_facts", "resolveConstants_constOK", "banks_fold_ok"]}
 
